@@ -43,7 +43,10 @@ CONSTANTS Msgs,         \* message tokens, positive integers
           PreNames,     \* names that may exist before the tool starts
           PreSize,      \* records in each pre-existing file
           ForeignNames, MaxForeign,   \* names somebody else may create while the tool runs, and how often
-          OptSet        \* option combinations explored (chosen in Init)
+          OptSet,       \* option combinations explored (chosen in Init)
+          GzipAppendOnRestart  \* FALSE: the code (gzip => O_EXCL, a restart takes the next <REV>).  TRUE: the design
+                               \* "gzip members concatenate, re-open the existing file in append mode": kept so that
+                               \* TLC shows what O_EXCL is there for (FileLogger_gzappend.cfg must FAIL)
 
 VARIABLES opt,      \* [gzip, workdir, skipEmpty : BOOLEAN, rotSize, rotInt : Nat]  (0 = off)
           now,      \* clock
@@ -77,7 +80,7 @@ RevIn(x)    == IF HasRev THEN x ELSE 0
 WorkName(d, x) == <<IF opt.workdir THEN "w" ELSE "o", d, RevIn(x)>>
 OutName(d, x)  == <<"o", d, RevIn(x)>>
 Date(t)     == t \div DatePeriod
-Excl        == opt.gzip \/ opt.rotInt > 0      \* O_EXCL, otherwise O_APPEND
+Excl        == (opt.gzip /\ ~GzipAppendOnRestart) \/ opt.rotInt > 0      \* O_EXCL, otherwise O_APPEND
 Alive       == r.pc # "dead"
 At(p)       == r.pc = p
 
@@ -91,7 +94,7 @@ Init == /\ opt \in OptSet
 
 Env    == <<opt, now, queue, held, sig, restarts>>
 Dead   == [R0 EXCEPT !.pc = "dead"]          \* the process is gone: its locals are gone with it
-Fatal  == r' = Dead /\ UNCHANGED avars       \* logf(FATAL) + os.Exit(1)
+Fatal  == r' = Dead /\ ProcessDeath          \* logf(FATAL) + os.Exit(1)
 
 NeedsRot == \/ r.out = "nil"
             \/ Date(now) # r.fname
@@ -134,7 +137,10 @@ WNl == /\ At("w_nl")
           /\ r' = [r EXCEPT !.pending = p2, !.cur = 0, !.fsize = @ + 1,
                             !.gzbuf = IF opt.gzip THEN Append(@, r.cur) ELSE @,
                             !.syncF = @ \/ Len(p2) = MaxInFlight, !.pc = "sync"]
-          /\ IF opt.gzip THEN UNCHANGED avars ELSE FsAppend(r.ino, <<r.cur>>)
+          /\ IF opt.gzip
+             THEN IF r.gzbuf = <<>> THEN FsOpenMember(r.ino)    \* first Write of a member: the gzip header goes out
+                                    ELSE UNCHANGED avars
+             ELSE FsAppend(r.ino, <<r.cur>>)
        /\ UNCHANGED Env
 
 (* if sync || f.consumer.IsStarved() { if pos > 0 { Sync(); Finish()... }; sync = false } *)
@@ -246,6 +252,7 @@ Foreign(n) == /\ At("select") /\ sig.frn < MaxForeign /\ n \notin DOMAIN dir
                  /\ dir'  = dir  @@ (n :> i)
                  /\ data' = data @@ (i :> [k \in 1..PreSize |-> 0 - i])
                  /\ dur'  = dur  @@ (i :> PreSize)
+                 /\ tail' = tail @@ (i :> "clean")
               /\ sig' = [sig EXCEPT !.frn = @ + 1]
               /\ UNCHANGED <<fin, epoch, opt, now, queue, held, restarts, r>>
 \* consumer.StopChan: all connections gone after CLS (or the 30 s give-up timer)
@@ -256,8 +263,8 @@ StopClose == /\ At("select") /\ r.termed /\ ~r.stop
 Gone == /\ r' = Dead /\ queue' = Msgs \ fin /\ held' = {}
         /\ sig' = [sig EXCEPT !.term = FALSE, !.hup = FALSE]
         /\ UNCHANGED <<opt, now, restarts>>
-Exit == /\ At("done") /\ Gone /\ UNCHANGED avars
-Kill == /\ Alive /\ r.pc # "done" /\ Gone /\ UNCHANGED avars
+Exit == /\ At("done") /\ Gone /\ ProcessDeath
+Kill == /\ Alive /\ r.pc # "done" /\ Gone /\ ProcessDeath
 PowerLossStep == /\ epoch < MaxPower
                  /\ PowerLoss
                  /\ Gone
